@@ -25,7 +25,7 @@ func init() {
 	register(&core.Rule{ID: "C19.2", Prop: "C19", MinSites: 6,
 		Desc: "EventLoop.Register/Enroll/Execute: isShutdown() ↦ ErrEngineInShutdown first, nil argument ↦ documented error before use",
 		Run:  runC19_2})
-	register(&core.Rule{ID: "C19.3", Prop: "C19", MinSites: 4,
+	register(&core.Rule{ID: "C19.3", Prop: "C19", MinSites: 6,
 		Desc: "Engine.Stop and the package-level Stop return nil only on the isShutdown() edge; the ctx.Done() arm returns ctx.Err()",
 		Run:  runC19_3})
 	register(&core.Rule{ID: "C19.5", Prop: "C19", MinSites: 2,
@@ -389,6 +389,33 @@ func runC19_3on(c *core.Ctx, name string) {
 		}
 		return true
 	})
+	// the shutdown is requested before the wait begins
+	if shutdownFn := c.P.Func("", "engine.shutdown"); shutdownFn != nil {
+		const fAsked = 1
+		sp := &flow.Problem{Must: true}
+		sp.Node = func(b *flow.Block, i int, n ast.Node, in uint64) uint64 {
+			for _, call := range flow.Calls(n) {
+				if flow.IsCall(f.Info, call, shutdownFn) {
+					in |= fAsked
+				}
+			}
+			return in
+		}
+		ss := f.Graph().Solve(sp)
+		asked, waits := true, 0
+		ss.Walk(func(b *flow.Block, i int, n ast.Node, before uint64) {
+			for _, call := range flow.Calls(n) {
+				if flow.IsPkgFunc(f.Info, call, "time", "NewTicker") {
+					waits++
+					if before&fAsked == 0 {
+						asked = false
+					}
+				}
+			}
+		})
+		c.Check(asked && waits > 0, f.Name, "shutdown requested before waiting", f.Decl.Pos(), "engine.shutdown(nil) precedes the polling loop on every path",
+			"Stop starts polling isShutdown() on a path where engine.shutdown was not called: nothing asks the loops to exit, and Stop waits until its context ends")
+	}
 	c.Check(okk, f.Name, "ctx.Done() ↦ ctx.Err()", f.Decl.Pos(), "the context's error is returned and nothing else happens", "the ctx.Done() arm of Stop no longer just returns ctx.Err() (it must not cancel or redo the shutdown)")
 }
 
